@@ -60,6 +60,19 @@ CHECKS.update({
                      'concurrency 1..2 with all answer orders.  ' + E2E_NOTE, design_ref='DESIGN.md 5 (C20)'),
 })
 
+CHECKS['C02'] = dict(
+    technique='declarative TLA+ scope rules (Scope.tla) evaluated by TLC on vectors answered by the real filter list; '
+              'crawl-level request monitor (CrawlMon)',
+    text='Scope.tla states every rule (scheme, recursion, depth, requisite depth, no-parent, domain/host lists, span-hosts '
+         'with its allowances, regex, directory, suffix, retry limit) and the single redirect waiver declaratively; TLC '
+         'checks its structural theorems over a full abstract product (ScopeCheck) and then evaluates the rules on every '
+         'vector of the per-cluster exhaustive enumerations and of the activation x failure-pattern composition, each '
+         'answered by the REAL filter list built from a real argument vector (URLFiltersSetupTask._build_url_filters + '
+         'SpanHostsFilter + FetchRule.consult_filters) on concrete URLInfo/URLRecord witnesses: a URL the real code would '
+         'request although a rule forbids it is a violation.  At crawl level every request seen by the scripted server '
+         'in complete crawls of sites offering out-of-scope links, requisites and redirects is judged by CrawlMon.',
+    design_ref='DESIGN.md 5 (C02)')
+
 NOT_YET = {}
 
 
